@@ -191,7 +191,7 @@ def run(ctx):
     from .. import tlc as T
     E.NOIMG_INVALID = NOIMG_INVALID
     progs = programs(ctx)
-    cases = core.pmap(run_program, [(k, *p) for k, p in enumerate(progs)], chunksize=4)
+    cases = core.pmap(run_program, [(k, *p) for k, p in enumerate(progs)], chunksize=4, on_raise='drop')
     ver = core.validate_batch(ctx, 'Alias', cases, 'Trace:Alias')
     for c in cases:
         v = ver[c['id']]
